@@ -8,7 +8,7 @@ class Prop(PropBase):
     REQUIRED = ["Tpp.Props.C18." + n for n in (
         "C18_encode_standard", "C18_roundtrip", "C18_only_standard_1byte", "C18_only_standard_ext",
         "C18_aliases", "C18_no_shared_designator", "C18_degenerate")]
-    RULE = ("exhaustive: all 19 character sets through encode_character_set; lookup_character_set on the empty code, "
+    RULE = ("every ordered pair of the 19 character sets written through a real terminal (both unicode_in_all_charsets values), judged on the reference terminal (which set ends up designated, what each glyph shows as); exhaustive: all 19 character sets through encode_character_set; lookup_character_set on the empty code, "
             "all 256 one-byte codes, all 256 '%'-extended codes, all 256x256 two-byte codes (thorough) or a "
             "seeded sample of them (quick), sampled three-byte codes. A case is non-trivial when the code is "
             "non-empty; distinct by line text.")
@@ -33,6 +33,20 @@ class Prop(PropBase):
         else:
             for _ in range(3000):
                 cs.append(Case("D 2 %d %d" % (rng.randrange(256), rng.randrange(256)), oracle=False, tag="random-2byte"))
+        # the designators as a terminal receives them: every ordered pair of character sets (UTF-8 included) written
+        # through a real terminal, both values of unicode_in_all_charsets; the reference terminal must end up with the
+        # second set designated and show both glyphs in their own sets
+        from .. import termgen as tg
+        cfgs = tg.ALL_CONFIGS_SMALL
+        for c1 in tg.CHARSETS:
+            for c2 in tg.CHARSETS:
+                for bits in (0, 16):
+                    g1 = [c1] + (tg.utf8_bytes(0xE9) if c1 == 18 else [0x61, 0, 0])
+                    g2 = [c2] + (tg.utf8_bytes(0x20AC) if c2 == 18 else [0x62, 0, 0])
+                    a = " ".join(map(str, g1 + tg.DEFAULT_ATTR))
+                    b = " ".join(map(str, g2 + tg.DEFAULT_ATTR))
+                    cs.append(Case("T %d ; we %s ; we %s ; we %s" % (bits, a, b, a), sweep="charset-pairs-on-the-wire",
+                                   cfgs=[cfgs[(c1 * 19 + c2) % len(cfgs)]]))
         for _ in range(2000 if tier == "quick" else 20000):
             cs.append(Case("D 3 %d %d %d" % (rng.choice([37, rng.randrange(256)]), rng.randrange(256), rng.randrange(256)), oracle=False, tag="random-3byte"))
         return cs
